@@ -36,6 +36,7 @@ int mprotect(void *addr, size_t len, int prot)
 	if ((prot & (PROT_WRITE | PROT_EXEC)) == (PROT_WRITE | PROT_EXEC)) {
 		for (i = 0; i < nr_fail_rwx; i++) {
 			if (fail_rwx_page[i] == (unsigned long)addr) {
+				fail_rwx_page[i] = 0; /* one shot: the request of setup */
 				errno = EACCES;
 				return -1;
 			}
